@@ -152,6 +152,7 @@ let rbytes st n = String.init n (fun _ -> Char.chr (rint st 256))
 
 (* run [f] in a forked child; classify how it ended.  The child reports a short
    string through a pipe.  Used wherever the implementation may abort or crash. *)
+external cov_dump : unit -> unit = "vp_cov_dump"
 type child_end = Exited of int * string | Signaled of int * string
 let child_time_limit = ref 120
 let in_child (f : unit -> string) : child_end =
@@ -166,7 +167,7 @@ let in_child (f : unit -> string) : child_end =
     ignore (Unix.alarm !child_time_limit);
     let s = (try f () with e -> "EXN:" ^ Printexc.to_string e) in
     let _ = Unix.write_substring wr s 0 (String.length s) in
-    Unix.close wr; Unix._exit 0
+    Unix.close wr; cov_dump (); Unix._exit 0
   | pid ->
     Unix.close wr;
     let b = Buffer.create 256 in
